@@ -5,7 +5,7 @@ from lib import gen, alngen, sysrun
 from lib.sysrun import Case
 
 LEVEL = "proof"
-CHECKER = "lake build KalignModel.Props.C15 && lake env lean KalignModel/Audit/C15.lean"
+CHECKER = "lake build KalignModel.Props.PipelineFile && lake env lean KalignModel/Audit/C15.lean"
 
 
 def theorems():
@@ -86,12 +86,14 @@ def run(ctx):
                         "independent reader: wrapping at 60, block structure, MSF length / per-row GCG checksums / total / type; non-trivial = distinct (alignment, format) "
                         "with >= 2 rows; widths on both sides of multiples of 60 are counted")
     thms = theorems()
-    ok = C.lean_obligations(ctx, "C15", thms) if thms else False
+    thms = thms + C.pipefile_theorems(["kalignFile_output_shape"]) if thms else thms
+    ok = C.lean_obligations(ctx, "C15", thms, module="PipelineFile") if thms else False
     if not thms:
         ctx.obligations.append(dict(name="Props/C15 theorems", ok=False, why="theorem list missing"))
     kvh = C.build_harness("asan")
     rng = ctx.rng
     diffs = C.unit_correspondence(ctx, kvh, C.gen_ops("gen_io.py", ctx.seed, 1 if ctx.quick else 8, prefixes=('write', 'gcg', 'parse_format')), "writers")
+    diffs += C.pipefile_correspondence(ctx, kvh, [4 * ctx.seed + 2] if ctx.quick else [4 * ctx.seed + 2 + 40 * k for k in range(5)])
     sc = C.scratch()
     fails = []
     # (a) synthetic alignments through the writers
